@@ -9,6 +9,8 @@ import (
 	"github.com/go-kid/ioc/container/processors"
 	"github.com/go-kid/ioc/container/support"
 	"github.com/go-kid/ioc/zzverif/nd"
+	modela "github.com/go-kid/ioc/zzverif/pa/model"
+	modelb "github.com/go-kid/ioc/zzverif/pb/model"
 )
 
 // ---------------------------------------------------------------------------
@@ -197,6 +199,16 @@ const (
 	nKinds
 )
 
+type vRHDecline struct {
+	processors.DefaultInstantiationAwareComponentPostProcessor
+}
+
+func (p *vRHDecline) LazyInit()  {}
+func (p *vRHDecline) Order() int { return -7 }
+func (p *vRHDecline) PostProcessAfterInstantiation(c any, n string) (bool, error) {
+	return nd.Bool(), nil
+}
+
 type vStubFactory struct {
 	container.Factory
 	reg container.DefinitionRegistry
@@ -233,6 +245,10 @@ func newRHOrder(orderMix bool) *vRH {
 	}
 	// registration order of the three processors is arbitrary
 	ps := []container.ComponentPostProcessor{dep, fn, fm, cq}
+	if nd.Param("PROC0", 0) == 1 {
+		// an ordered user processor that runs first and may decline: that only skips ITS OWN PostProcessProperties
+		ps = append(ps, &vRHDecline{})
+	}
 	if orderMix && nd.Bool() {
 		ps = []container.ComponentPostProcessor{cq, fm, fn, dep}
 	}
@@ -490,7 +506,18 @@ func (p *vInnerN) Naming() string { return "nested" }
 
 // registration: two distinct components can never be registered under one name
 func VerifC07Register() {
-	switch nd.Choose(3) {
+	switch nd.Choose(4) {
+	case 3:
+		// two types that print the same (model.Svc) but live in different packages have different default names
+		reg := support.NewRegistry()
+		a, b := &modela.Svc{X: 1}, &modelb.Svc{X: 2}
+		nd.Assert(!nd.Catch(func() { reg.RegisterSingleton(a) }), "C07: the first component of a name is accepted")
+		nd.Assert(!nd.Catch(func() { reg.RegisterSingleton(b) }), "C07: a component with a different default (package/type) name is accepted")
+		ga, ea := reg.GetSingleton("github.com/go-kid/ioc/zzverif/pa/model/Svc")
+		gb, eb := reg.GetSingleton("github.com/go-kid/ioc/zzverif/pb/model/Svc")
+		nd.Assert(ea == nil && eb == nil && ga == any(a) && gb == any(b), "C07: each component is registered under its own default package/type name")
+		nd.Cover("same-named types of different packages")
+		return
 	case 1:
 		reg := support.NewRegistry()
 		a, b := &vZN1{}, &vZN2{}
@@ -541,6 +568,59 @@ func VerifC07Register() {
 			}
 		}
 		nd.Assert(first >= 0 && got == ps[first], "C07: a name refers to exactly the component registered under it")
+	}
+}
+
+// several by-name points on one holder: an unknown name on one of them must not affect the others
+type vHNames struct {
+	nm string
+	A  vI1 `wire:""`
+	B  vI1 `wire:""`
+	C  vI1 `wire:""`
+}
+
+func (h *vHNames) Naming() string { return h.nm }
+
+func VerifC07Fields() {
+	r := newRHOrder(false)
+	p1, p2 := &vPA{vAttr{id: 1, nm: "p1"}}, &vPA{vAttr{id: 2, nm: "p2"}}
+	h := &vHNames{nm: "holder"}
+	hm := r.register(h, "holder")
+	r.register(p1, "p1")
+	r.register(p2, "p2")
+	names := []string{"p1", "p2", "nobody"}
+	var req [3]string
+	var opt [3]bool
+	for i, pr := range hm.GetComponentProperties() {
+		req[i] = names[nd.Choose(3)]
+		opt[i] = nd.Bool()
+		pr.TagVal = req[i]
+		if opt[i] {
+			pr.SetArg(component_definition.ArgRequired, "false")
+		}
+	}
+	_, err := r.f.doGetComponent("holder")
+	expectErr := false
+	for i := 0; i < 3; i++ {
+		if req[i] == "nobody" && !opt[i] {
+			expectErr = true
+		}
+	}
+	nd.Assert((err != nil) == expectErr, "C07: start-up fails exactly when a required by-name point names no component")
+	if err != nil {
+		return
+	}
+	got := []vI1{h.A, h.B, h.C}
+	for i := 0; i < 3; i++ {
+		switch req[i] {
+		case "p1":
+			nd.Assert(got[i] == vI1(p1), "C07: each by-name point receives exactly its named component, whatever the other points name")
+		case "p2":
+			nd.Assert(got[i] == vI1(p2), "C07: each by-name point receives exactly its named component, whatever the other points name")
+		default:
+			nd.Cover("absent optional name next to other points")
+			nd.Assert(got[i] == nil, "C07: an optional by-name point naming no component stays untouched")
+		}
 	}
 }
 
@@ -714,6 +794,15 @@ type vH8f struct {
 
 func (h *vH8f) Naming() string { return h.nm }
 
+// a pointer-typed single-valued point: the same preference rules apply (unique primary is impossible
+// for one pointer type here, so: a unique component without a custom name wins)
+type vH8p struct {
+	nm string
+	A  *vPA `wire:""`
+}
+
+func (h *vH8p) Naming() string { return h.nm }
+
 // one qualified single-valued field (used with three candidates)
 type vH8s struct {
 	nm string
@@ -733,6 +822,7 @@ type vFieldView struct {
 	multi  func() []any
 	nocand bool // declared type has no implementer at all
 	hook   bool // func-tag point: candidates are the components exposing Hook() without result
+	ptrPA  bool // *vPA point: candidates are exactly the *vPA components
 }
 
 func ifaceOrNil(v vI1) any {
@@ -776,6 +866,16 @@ func VerifC08() {
 		x := &vH8c{nm: "holder"}
 		h = x
 		fields = []vFieldView{{name: "A", slice: true, multi: func() []any { return ifaceSlice(x.A) }}, {name: "B", single: func() any { return ifaceOrNil(x.B) }}}
+	case 6:
+		x := &vH8p{nm: "holder"}
+		h = x
+		fields = []vFieldView{{name: "A", ptrPA: true, single: func() any {
+			if x.A == nil {
+				return nil
+			}
+			return x.A
+		}}}
+		nd.Cover("pointer-typed point")
 	case 5:
 		x := &vH8s{nm: "holder"}
 		h = x
@@ -843,7 +943,11 @@ func VerifC08() {
 			continue
 		}
 		for j := range ps {
-			if fv.hook {
+			if fv.ptrPA {
+				if !vIsPA[ts[j]] {
+					continue
+				}
+			} else if fv.hook {
 				if !vHookNoResult[ts[j]] {
 					continue
 				}
@@ -1050,5 +1154,74 @@ func VerifC07Symbolic() {
 		} else {
 			nd.Assert(err != nil, "C07: a required by-name point without a component of that name is reported as an error")
 		}
+	}
+}
+
+// ---------------------------------------------------------------------------
+// C06: func tag with returns=: a point receives exactly the components whose method returns the
+// requested value; several such points on one holder do not influence each other.  The values
+// the methods return are symbolic bytes.
+// ---------------------------------------------------------------------------
+
+type vRet struct {
+	id          int
+	stage, kind string
+}
+
+func (p *vRet) Stage() string  { return p.stage }
+func (p *vRet) Kind() string   { return p.kind }
+func (p *vRet) Naming() string { return vNames[p.id] }
+
+type vHRet struct {
+	nm  string
+	Pre []any `func:"Stage,returns=p,required=false"`
+	Xs  []any `func:"Kind,returns=x,required=false"`
+}
+
+func (h *vHRet) Naming() string { return h.nm }
+
+func VerifC06Returns() {
+	k := nd.Param("K", 2)
+	r := newRHOrder(false)
+	var ps []*vRet
+	h := &vHRet{nm: "holder"}
+	r.register(h, "holder")
+	for i := 0; i < k; i++ {
+		p := &vRet{id: i, stage: nd.Bytes(1), kind: nd.Bytes(1)}
+		for _, s := range []string{p.stage, p.kind} {
+			nd.Assume(s[0] >= 'g' && s[0] <= 'z')
+		}
+		ps = append(ps, p)
+		r.register(p, vNames[i])
+	}
+	_, err := r.f.doGetComponent("holder")
+	nd.Assert(err == nil, "C06: optional func points never fail")
+	count := func(list []any, p *vRet) int {
+		c := 0
+		for _, e := range list {
+			if e == any(p) {
+				c++
+			}
+		}
+		return c
+	}
+	wantPre, wantXs := 0, 0
+	for _, p := range ps {
+		if p.stage == "p" {
+			wantPre++
+			nd.Assert(count(h.Pre, p) == 1, "C06: a func point receives every component whose method returns the requested value")
+		} else {
+			nd.Assert(count(h.Pre, p) == 0, "C06: a func point receives only components whose method returns the requested value")
+		}
+		if p.kind == "x" {
+			wantXs++
+			nd.Assert(count(h.Xs, p) == 1, "C06: a func point receives every component whose method returns the requested value")
+		} else {
+			nd.Assert(count(h.Xs, p) == 0, "C06: a func point receives only components whose method returns the requested value")
+		}
+	}
+	nd.Assert(len(h.Pre) == wantPre && len(h.Xs) == wantXs, "C06: exactly once each")
+	if wantPre > 0 && wantXs > 0 {
+		nd.Cover("both func points populated")
 	}
 }
